@@ -398,9 +398,14 @@ def run_property(prop_id, tier, seed=None, replay=None):
         print(f"  fingerprint={fp} occurrences={fail_counts[fp]} observation={canon(obs)[:400]}", flush=True)
 
     level = getattr(mod, "LEVEL", "exploration")
+    # cases produced by an enumerator are distinct by construction; enumerating shards count their non-trivial ones
+    # instead of hashing millions of them
+    enumerated_nontrivial = int(extra.pop("enumerated_distinct_nontrivial", 0))
     cov = {
         "evaluations": evaluations,
-        "distinct_nontrivial": len(nontriv),
+        "distinct_nontrivial": len(nontriv) + enumerated_nontrivial,
+        "distinct_nontrivial_hashed": len(nontriv),
+        "distinct_nontrivial_enumerated": enumerated_nontrivial,
         "rule": mod.RULE,
         "samples": samples if samples else ["(no non-trivial sample recorded)"],
         "exhaustive": bool(extra.pop("exhaustive", False)) and not budget_exhausted,
